@@ -92,12 +92,13 @@ def handle (j : Json) : Except String Json := do
     | .ok out =>
       pure (Json.mkObj [("ops", Json.arr (out.ops.map encDef).toArray), ("excluded", strs (Util.sortStr out.excluded)),
         ("fragments", encFragments out.fragments), ("trigger", trig),
-        ("mroConflict", (moduleTables out).any fun t => !Spec.Py.mroOK t)])
+        ("mroConflict", (moduleTables out).any fun t => !Spec.Py.mroOK t),
+        ("siblingUnpacks", trigSiblingUnpacks e env fuel ops)])
     | .error err =>
       -- what the operations did is still reported (the real run is observed step by step)
       let a := partialOps env {} ops
       let acc := Json.mkObj [("ops", Json.arr (a.ops.map encDef).toArray), ("excluded", strs (Util.sortStr a.unpacked))]
-      pure (Json.mkObj [("failed", encErr err), ("before", acc), ("trigger", trig), ("mroConflict", false)])
+      pure (Json.mkObj [("failed", encErr err), ("before", acc), ("trigger", trig), ("mroConflict", false), ("siblingUnpacks", false)])
   | "subclass" =>
     -- Spec.Py: is `c` a subclass of `b` given the class table [[name, [bases…]], …]
     let table ← (← GqlWire.arr j "classes").mapM fun x => do
